@@ -6,6 +6,8 @@ import (
 	"testing"
 	"time"
 
+	"pgregory.net/rapid"
+
 	"verif/internal/hx"
 )
 
@@ -14,7 +16,7 @@ import (
 // only if it is complete or the buffer held more than maxInFlight events (the
 // timeout is far in the future, so the third cause is excluded).
 
-var hC10 = hx.New("C10", "rapid-generated single-goroutine histories with timeout far in the future (1h, 290 years or the largest Duration: time-out cause excluded), maxInFlight 0..8, windowed sequences that over-fill the buffer, EOE for head and non-head events, Maintain interleaved; oracle: buffered set reconstructed from pushes and observed deliveries, checked after every call. Non-trivial = history with an overflow eviction of an incomplete event, or a complete event that had to wait behind an incomplete older one; distinct by hash of the history")
+var hC10 = hx.New("C10", "rapid-generated single-goroutine histories with timeout far in the future (1h, 290 years or the largest Duration: time-out cause excluded), maxInFlight 0..8, windowed sequences that over-fill the buffer, EOE for head and non-head events, Maintain interleaved; oracle: buffered set reconstructed from pushes and observed deliveries, checked after every call; second stage: the histories of C19 with finite timeouts (300us..5ms) and real sleeps, where a delivery without another cause must not happen while the timeout has definitely not elapsed. Non-trivial = history with an overflow eviction of an incomplete event, or a complete event that had to wait behind an incomplete older one, or (timed stage) an idle period longer than the timeout right before a push; distinct by hash of the history")
 
 var c10Cfg = genCfg{
 	windowed: true,
@@ -79,6 +81,88 @@ func propC10(h History) error {
 		hC10.NonTrivial(fpHistory(h), h.Describe)
 	}
 	return nil
+}
+
+// propC10Timed: the same clauses under finite timeouts and real idle periods. Whether a timeout has elapsed is
+// decided from the harness clock read around every call; only "definitely not elapsed" is asserted (the call in
+// which the event is delivered ended less than the timeout after the call that created it began).
+func propC10Timed(h History) error {
+	tr := exec(h)
+	if !tr.Created {
+		return fmt.Errorf("NewReassembler failed: %v", tr.NewErr)
+	}
+	T := time.Duration(h.TimeoutNs)
+	bk := newBook(h)
+	early, timed := false, false
+	for i, o := range h.Ops {
+		if o.K == opClose {
+			break // the property speaks about deliveries outside Close
+		}
+		st := &tr.Steps[i]
+		if isPush(o) && st.Err == nil {
+			bk.notePush(i, o, st)
+		}
+		for _, cb := range st.CBs {
+			if !cb.IsEv || len(cb.Seqs) == 0 {
+				continue
+			}
+			seq := cb.Seqs[0]
+			e := bk.pending[seq]
+			if e == nil {
+				continue
+			}
+			switch {
+			case e.complete:
+			case len(bk.pending) > h.MaxInFlight:
+			case T > 0 && !st.T1.After(e.createdT0.Add(T)):
+				return fmt.Errorf("op %d (%s): event seq %d delivered without cause: it is not complete, %d events are buffered (maxInFlight %d) and its timeout of %v had not elapsed (created in op %d; this call ended %v after the creating call began)", i, o.K, seq, len(bk.pending), h.MaxInFlight, T, e.firstOp, st.T1.Sub(e.createdT0))
+			default:
+				timed = true
+			}
+			if e.firstOp == i && !e.complete {
+				early = true // delivered by the very call that created it (over-full buffer or non-positive timeout)
+			}
+			delete(bk.pending, seq)
+		}
+		if isPush(o) {
+			if len(bk.pending) > h.MaxInFlight {
+				return fmt.Errorf("op %d (%s): %d events remain buffered after the push, maxInFlight is %d", i, o.K, len(bk.pending), h.MaxInFlight)
+			}
+			if ord := bk.ordered(); len(ord) > 0 && ord[0].complete {
+				return fmt.Errorf("op %d (%s): the oldest buffered event (seq %d) is complete but was not delivered", i, o.K, ord[0].seq)
+			}
+		}
+	}
+	if timed {
+		hC10.Class("timed-history-with-delivery-after-possible-expiry")
+	}
+	if early {
+		hC10.Class("timed-history-with-delivery-in-creating-call")
+	}
+	idle := false
+	for i, o := range h.Ops {
+		if o.K == opSleep && int64(o.SleepUs)*1000 > h.TimeoutNs && i+1 < len(h.Ops) && h.Ops[i+1].K == opPush {
+			idle = true
+		}
+	}
+	if idle {
+		hC10.Class("timed-history-with-idle-period-before-push")
+		hC10.NonTrivial(fpHistory(h), h.Describe)
+	}
+	return nil
+}
+
+func TestC10TimedRegress(t *testing.T) { hx.Regress(t, hC10, "TestC10Timed", propC10Timed) }
+
+// TestC10Timed draws the histories of C19 (finite timeouts, real sleeps shorter and longer than the timeout).
+func TestC10Timed(t *testing.T) {
+	hx.Check(t, hC10, "TestC10Timed", func(rt *rapidT) History {
+		h := genC19(rt)
+		if h.TimeoutNs <= 0 || h.TimeoutNs >= int64(time.Second) {
+			h.TimeoutNs = int64(rapid.SampledFrom([]time.Duration{300 * time.Microsecond, time.Millisecond, 5 * time.Millisecond}).Draw(rt, "finite"))
+		}
+		return h
+	}, propC10Timed)
 }
 
 func TestC10Regress(t *testing.T) { hx.Regress(t, hC10, "TestC10", propC10) }
